@@ -25,6 +25,8 @@ type urlVal struct {
 	present  bool
 	class    string // valid | out_of_range | malformed | percent | repeated | absent | empty
 	extra    string // second occurrence for "repeated"
+	// texts: every occurrence, for a `repeated` field (each occurrence is one element)
+	texts []string
 	required bool
 }
 
@@ -89,6 +91,33 @@ func urlValueFor(r *gen.R, f *ir.Field, sample string, isPath bool) urlVal {
 			uv.text, uv.class = "+7", "valid"
 		}
 	}
+	if !isPath && f.Card == "repeated" {
+		// 0..3 occurrences; string elements may contain commas (an element, not a separator), a
+		// numeric element "1,2" is malformed
+		n := r.Intn(4)
+		uv.texts, uv.class, uv.present = nil, "list", n > 0
+		for i := 0; i < n; i++ {
+			e := urlValueFor(r, &ir.Field{Name: f.Name, Kind: f.Kind}, sample, true)
+			if r.P(1, 4) {
+				if f.Kind == "string" {
+					e.text = gen.Pick(r, []string{"Doe, John", "a,b", ",", "x,"})
+				} else {
+					e.text, e.class = "1,2", "malformed"
+				}
+			}
+			if e.class != "valid" && e.class != "percent" {
+				uv.class = "list_bad_element"
+			}
+			uv.texts = append(uv.texts, e.text)
+		}
+		if n > 0 {
+			uv.text = uv.texts[0]
+		}
+		if n == 0 {
+			uv.class = "absent"
+		}
+		return uv
+	}
 	if !isPath {
 		switch r.Intn(12) {
 		case 0:
@@ -114,8 +143,8 @@ func C02(c *Ctx) error {
 	n := c.N(6, 40)
 	perMethod := c.N(25, 120)
 	bt, items, err := buildBatch(n, func(i int) *ir.Request {
-		return gen.GenRuntimeFile(r.Fork(fmt.Sprint("c02-", i)), i, gen.RuntimeOpts{ManyMethods: i%2 == 1})
-	}, scratch.AddOpts{GoHTTP: true, GoClient: true}, false)
+		return gen.GenRuntimeFile(r.Fork(fmt.Sprint("c02-", i)), i, gen.RuntimeOpts{ManyMethods: i%2 == 1, RepeatedQuery: true})
+	}, scratch.AddOpts{GoHTTP: true}, false)
 	if err != nil {
 		return err
 	}
@@ -178,7 +207,11 @@ func C02(c *Ctx) error {
 					uv.name = mi.queryName(f)
 					uv.required = f.Ann.Query.Required
 					ks.qVals = append(ks.qVals, uv)
-					if uv.present {
+					if f.Card == "repeated" {
+						for _, t := range uv.texts {
+							qs = append(qs, url.QueryEscape(uv.name)+"="+url.QueryEscape(t))
+						}
+					} else if uv.present {
 						qs = append(qs, url.QueryEscape(uv.name)+"="+url.QueryEscape(uv.text))
 						if uv.extra != "" {
 							qs = append(qs, url.QueryEscape(uv.name)+"="+url.QueryEscape(uv.extra))
@@ -226,6 +259,14 @@ func C02(c *Ctx) error {
 					d := map[string]any{"f": uv.field.Name, "kind": uv.field.Kind, "required": uv.required, "float_ok": fok, "is_list": uv.field.Card == "repeated"}
 					if uv.present {
 						d["text"] = uv.text
+					}
+					if uv.field.Card == "repeated" {
+						ts, oks := []string{}, []bool{}
+						for _, t := range uv.texts {
+							_, ok := specConvert(uv.field.Kind, t)
+							ts, oks = append(ts, t), append(oks, ok)
+						}
+						d["texts"], d["floats_ok"] = ts, oks
 					}
 					return d
 				}
@@ -329,6 +370,15 @@ func C02(c *Ctx) error {
 				}
 				continue
 			}
+			if uv.field.Card == "repeated" {
+				for _, t := range uv.texts {
+					if _, ok := specConvert(uv.field.Kind, t); !ok {
+						failing = append(failing, uv.field.Name)
+						break
+					}
+				}
+				continue
+			}
 			if _, ok := specConvert(uv.field.Kind, uv.text); !ok {
 				failing = append(failing, uv.field.Name)
 			}
@@ -356,10 +406,9 @@ func C02(c *Ctx) error {
 				for _, uv := range append(append([]urlVal{}, k.pathVals...), k.qVals...) {
 					fd := md.Fields().ByName(protoreflect.Name(uv.field.Name))
 					_, inImpl := fields[uv.field.Name]
-					want, _ := specConvert(uv.field.Kind, uv.text)
 					key, val := "", any(nil)
-					if want.IsValid() && uv.present {
-						key, val = singleFieldJSON(md, fd, want)
+					if uv.present {
+						key, val = urlFieldJSON(md, fd, uv)
 					}
 					got, inSeen := seen[fd.JSONName()]
 					// the model says the field holds the URL value iff it is in `fields` and not from_body
@@ -411,8 +460,7 @@ func C02(c *Ctx) error {
 				continue
 			}
 			fd := md.Fields().ByName(protoreflect.Name(uv.field.Name))
-			want, _ := specConvert(uv.field.Kind, uv.text)
-			key, val := singleFieldJSON(md, fd, want)
+			key, val := urlFieldJSON(md, fd, uv)
 			got, inSeen := seen[fd.JSONName()]
 			good := (key == "" && !inSeen) || (key != "" && inSeen && jsonEq(got, val))
 			if good {
@@ -429,6 +477,40 @@ func C02(c *Ctx) error {
 	}
 	res.Programs = len(items)
 	return nil
+}
+
+// urlFieldJSON is the proto3 JSON member the handler-visible request must show for a URL-bound
+// field: the converted value, or for a `repeated` field the list of every converted occurrence.
+func urlFieldJSON(md protoreflect.MessageDescriptor, fd protoreflect.FieldDescriptor, uv urlVal) (string, any) {
+	if uv.field.Card != "repeated" {
+		want, _ := specConvert(uv.field.Kind, uv.text)
+		if !want.IsValid() {
+			return "", nil
+		}
+		return singleFieldJSON(md, fd, want)
+	}
+	m := dynamicpb.NewMessage(md)
+	l := m.Mutable(fd).List()
+	for _, t := range uv.texts {
+		v, ok := specConvert(uv.field.Kind, t)
+		if !ok {
+			return "", nil
+		}
+		l.Append(v)
+	}
+	if l.Len() == 0 {
+		return "", nil
+	}
+	var mm map[string]any
+	d := json.NewDecoder(strings.NewReader(string(gen.PJ(m))))
+	d.UseNumber()
+	if d.Decode(&mm) != nil {
+		return "", nil
+	}
+	for k, val := range mm {
+		return k, val
+	}
+	return "", nil
 }
 
 func jsonInt(v any) int {
